@@ -9,6 +9,7 @@ import tempfile
 
 from harness.checks import builders_common as bc
 from harness.checks import rules_common as rc
+from harness.checks import scan_common as sc
 from harness.episodes import RuleEpisode
 from harness.result import CheckResult, attach
 from harness.rulesapi import DIRS, VERBS, F, mk_rule
@@ -122,6 +123,40 @@ def _entry_events(ctx, rng):
     return events
 
 
+def _limited_scan_specs(ctx, rng):
+    from harness import projgen
+    from harness.rulesapi import F, mk_rule, VERBS, DIRS
+
+    specs = []
+    for _ in range(40 if ctx.quick else 800):
+        p = projgen.random_project(rng, max_depth=rng.choice([3, 4, 5]), n_dirs=rng.randint(3, 8), positions=False,
+                                   externals=False, n_stmts=rng.randint(4, 25))
+        ep = sc.ScanEpisode(p)
+        mods = sc.all_modules(p)
+        for k in range(1, max(2, sc.depth_of(p) - 1)):
+            sk = ep.scan(limit=k)
+            keep = 1 + k
+            deep = [m for m in mods if len(m) > keep]
+            shallow = [m for m in mods if 1 < len(m) <= keep]
+            for i in range(8):
+                if not deep or not shallow:
+                    break
+                bad, good = rng.choice(deep), rng.choice(shallow)
+                if rng.random() < 0.3:
+                    bad = good[:-1] + [good[-1] + "x"]          # misspelt
+                if bad[:len(good)] == good or good[:len(bad)] == bad:
+                    continue
+                kind = rng.choice(["named", "sub"])
+                subs, objs = ([F(kind, bad)], [F("named", good)]) if rng.random() < 0.5 else ([F("named", good)], [F(kind, bad)])
+                if rng.random() < 0.2:
+                    rule = mk_rule("should_not", rng.choice(DIRS), False, [F(kind, bad)], [], any_=True)
+                else:
+                    rule = mk_rule(rng.choice(VERBS), rng.choice(DIRS), rng.random() < 0.5, subs, objs)
+                ep.seval(sk, f"T{k}_{i}", rule)
+        specs.append(ep.spec)
+    return specs
+
+
 def run(ctx):
     rng = random.Random(ctx.seed * 7919 + 13)
     n_rule, n_lrule, n_diag = (3, 4, 4) if ctx.quick else (4, 5, 5)
@@ -151,6 +186,15 @@ def run(ctx):
     # unknown / misspelt / too-deep names against random architectures: judged by Trace_Rules
     uspecs = _unknown_name_specs(ctx, rng)
     utr, uepisodes, ufails = rc.run_and_validate(uspecs)
+    # names that are not modules of a LEVEL-LIMITED scan (one level too deep: modules of the unlimited scan; misspelt):
+    # judged by Trace_Scan on the architecture as observed
+    sspecs = _limited_scan_specs(ctx, rng)
+    stre, sepisodes, sfails = sc.run_and_validate(sspecs)
+    too_deep = sum(1 for ep in sepisodes for e in ep if e["k"] == "seval" and e["out"] == "error")
+    if not too_deep:
+        raise tlc.MachineryError("vacuous: no rule with a name below the level limit was evaluated")
+    ufails = ufails + sfails
+    meta["too_deep_names_on_level_limited_scans"] = too_deep
     # entry-point option combinations
     entry = [_entry_events(ctx, rng)]
     etr = trace.validate(entry, "Trace_Builders.tla", "Trace_Builders.cfg", procs=1)
@@ -189,6 +233,8 @@ def replay(ctx, rp):
     spec = rp["spec"]
     if spec.get("driver") == "rules":
         tr, episodes, fails = rc.run_and_validate([spec], procs=1)
+    elif spec.get("driver") == "scan":
+        tr, episodes, fails = sc.run_and_validate([spec], procs=1)
     elif spec.get("driver") == "entry":
         rng = random.Random(0)
         entry = [_entry_events(ctx, rng)]
